@@ -361,3 +361,81 @@ func residueIfAlive(residue int, dead bool) int {
 	}
 	return residue
 }
+
+// framesPaddedBoundaries: every padded frame type (DATA, HEADERS with and without PRIORITY, PUSH_PROMISE) in its
+// boundary shapes - pad length 0, pad length = everything after the fixed fields (zero content), one and two bytes
+// less, a payload consisting of the Pad Length octet only - plus the first invalid pad length, each followed by a
+// PING.  MOSN's MFramer, x/net's Framer and the model are compared frame by frame.
+func framesPaddedBoundaries(run *Run, ss *shardSet) {
+	sw := srcSwitches()
+	type shape struct {
+		typ     string
+		ftype   byte
+		flags   byte
+		fixed   []byte // after the Pad Length octet, before the content
+		content [][]byte
+	}
+	prio := []byte{0x80, 0, 0, 3, 200}
+	shapes := []shape{
+		{"data", 0, 0x8, nil, [][]byte{{}, {7}, {7, 8}, bytes.Repeat([]byte{9}, 20)}},
+		{"data-endstream", 0, 0x9, nil, [][]byte{{}, {7}}},
+		{"headers", 1, 0x8 | 0x4, nil, [][]byte{{}, {0x82}, {0x82, 0x86}}},
+		{"headers-priority", 1, 0x8 | 0x4 | 0x20, prio, [][]byte{{}, {0x82}, {0x82, 0x86}}},
+		{"push-promise", 5, 0x8 | 0x4, []byte{0, 0, 0, 2}, [][]byte{{}, {0x82}, {0x82, 0x86}}},
+	}
+	for _, sh := range shapes {
+		for _, c := range sh.content {
+			for _, k := range []int{0, 1, 2, 255} {
+				for _, short := range []int{0, 1} { // short=1: one padding octet missing => pad length larger than what follows
+					if abortRun {
+						return
+					}
+					if short == 1 && k == 0 {
+						continue
+					}
+					payload := append([]byte{byte(k)}, sh.fixed...)
+					payload = append(payload, c...)
+					payload = append(payload, make([]byte, k-short)...)
+					if short == 1 { // make the announced padding exceed the remaining bytes entirely
+						payload = append([]byte{byte(len(c) + k - short + 1)}, payload[1:]...)
+					}
+					var w bytes.Buffer
+					fr := xh2.NewFramer(&w, nil)
+					fr.AllowIllegalWrites = true
+					fr.WriteRawFrame(xh2.FrameType(sh.ftype), xh2.Flags(sh.flags), 1, payload)
+					fr.WritePing(false, [8]byte{1, 2, 3, 4, 5, 6, 7, 8})
+					data := append([]byte(nil), w.Bytes()...)
+					mevs, residue, dead := runMosn(sw["h2_dispatch_continues"], [][]byte{data})
+					xevs := runXnet(data)
+					valid := short == 0
+					rep := map[string]interface{}{"part": "padded-boundary", "type": sh.typ, "content": len(c), "pad_length": int(payload[0]), "payload": len(payload), "stream": Hex(data)}
+					run.Count(fmt.Sprintf("padb|%s|%d|%d|%d", sh.typ, len(c), k, short), true, "padded-boundary:"+sh.typ, fmt.Sprintf("padded-boundary-valid=%v", valid))
+					bad := false
+					for _, e := range mevs {
+						if e.Err == "PANIC" || e.Err == "HANG" {
+							bad = true
+							run.Fail("h2frame:reader-panic-or-hang", fmt.Sprintf("MFramer.ReadFrame %s on a padded %s frame (content %d, pad length %d)", e.Err, sh.typ, len(c), payload[0]), rep)
+						}
+					}
+					if bad {
+						continue
+					}
+					// finder: a valid padded frame is returned (first event a frame, then the PING), identically by both parsers
+					if valid && (len(mevs) != 2 || mevs[0].Frame == nil || mevs[1].Frame == nil) {
+						run.Fail("h2frame:valid-frame-rejected:"+sh.typ, fmt.Sprintf("MFramer rejects a valid PADDED %s frame with %d content byte(s) and pad length %d (payload %d bytes): events %s", sh.typ, len(c), payload[0], len(payload), eventsCoq(mevs)), rep)
+					} else if compareReference && !eventsEqual(mevs, xevs) {
+						run.Fail("h2frame:parsers-disagree:"+sh.typ, fmt.Sprintf("padded %s frame (content %d, pad length %d, payload %d): MFramer %s, x/net %s", sh.typ, len(c), payload[0], len(payload), eventsCoq(mevs), eventsCoq(xevs)), rep)
+					}
+					// the forked plain Framer (frame.go ReadFrame) as well
+					ff := mh2.NewFramer(nil, bytes.NewReader(data))
+					f1, e1 := ff.ReadFrame()
+					if valid && (e1 != nil || f1 == nil) {
+						run.Fail("h2frame:valid-frame-rejected:"+sh.typ, fmt.Sprintf("Framer.ReadFrame (frame.go) rejects a valid PADDED %s frame with %d content byte(s) and pad length %d: %v", sh.typ, len(c), payload[0], e1), rep)
+					}
+					ss.add("frp", frameHeader, "fr_case", "fr_mismatches", 200,
+						fmt.Sprintf("(%s, [[]], %s, %s, %s)", cb(data), eventsCoq(mevs), CoqN(uint64(residueIfAlive(residue, dead))), CoqBool(dead)), rep)
+				}
+			}
+		}
+	}
+}
